@@ -75,6 +75,8 @@ struct Rec {
     distance: Option<f64>,
     track: Vec<TrackEntry>,
     last_heard_ns: i128,
+    /// receiver position passed with the report that led to the current publication
+    pub_receiver: Option<(f64, f64)>,
 }
 
 #[derive(Debug, Clone)]
@@ -323,7 +325,7 @@ impl Model {
                 eprintln!("ambiguous: even={e:?} odd={o:?} prev={:?} cands={cands:?} decs={decs:?} obs_pos={obs_pos:?} cleared={obs_cleared} range={max_range} rx={receiver:?}", rec.position);
             }
             if let Some(op) = obs_pos {
-                Self::publish(rec, op, obs.and_then(|r| r.distance).unwrap_or(f64::NAN), duplicate);
+                Self::publish(rec, op, obs.and_then(|r| r.distance).unwrap_or(f64::NAN), duplicate, receiver);
             } else {
                 Self::clear(rec, obs_cleared);
             }
@@ -335,7 +337,7 @@ impl Model {
                 if duplicate {
                     stats.duplicates += 1;
                 }
-                Self::publish(rec, p, dist, duplicate);
+                Self::publish(rec, p, dist, duplicate, receiver);
             }
             Some(Dec::Clear(why)) => {
                 if why == "range" {
@@ -383,14 +385,15 @@ impl Model {
                 });
                 // resynchronise the model with the implementation so one defect is reported once
                 match obs_pos {
-                    Some(op) => Self::publish(rec, op, obs.and_then(|r| r.distance).unwrap_or(f64::NAN), duplicate),
+                    Some(op) => Self::publish(rec, op, obs.and_then(|r| r.distance).unwrap_or(f64::NAN), duplicate, receiver),
                     None => Self::clear(rec, obs_cleared),
                 }
             }
         }
     }
 
-    fn publish(rec: &mut Rec, p: (f64, f64), dist: f64, duplicate: bool) {
+    fn publish(rec: &mut Rec, p: (f64, f64), dist: f64, duplicate: bool, receiver: (f64, f64)) {
+        rec.pub_receiver = Some(receiver);
         if let Some(prev) = rec.position {
             // the superseded position enters the track; a re-publication of the
             // identical position by an identical report may or may not add one
@@ -517,12 +520,15 @@ impl Model {
                 });
             }
             if let (Some(p), Some(d)) = (o.position, o.distance) {
-                let want = cpr::haversine_km(self.receiver, p);
+                // the receiver may move between calls: the distance belongs to the receiver position
+                // given with the report that led to this publication
+                let rx = r.pub_receiver.unwrap_or(self.receiver);
+                let want = cpr::haversine_km(rx, p);
                 if !(close(d, want, 1e-9) || (d - want).abs() < 1e-6) {
                     out.push(Disagreement {
                         prop: "C13",
                         clause: "distance_great_circle",
-                        detail: format!("addr {a:06x}: distance {d} vs great-circle {want} (receiver {:?} position {p:?})", self.receiver),
+                        detail: format!("addr {a:06x}: distance {d} vs great-circle {want} (receiver {rx:?} position {p:?})"),
                     });
                 }
             }
